@@ -55,6 +55,20 @@ def leaf_units(kind, val, data):
     return bytes(val) if kind == "bytes" else "".join(chr(c) for c in val).encode("utf-8")
 
 
+def counted_open(g):
+    def walk(n):
+        return (n["k"] == "rep" and n["hi"] >= gen.INF and n["lo"] >= 2 and not n["ref"]) or any(walk(x) for x in n["xs"])
+    return any(walk(n) for n in g["rules"].values())
+
+
+def f43_witness():
+    """pinned: <start> ::= "-"{2,} rejects 21 dashes (and accepts 20), while "-"+ accepts them"""
+    from harness.fan import make, quiet
+    quiet()
+    f = make('<start> ::= "-"{2,}\n')
+    return len(list(f.parse("-" * 20))) > 0 and len(list(f.parse("-" * 21))) == 0
+
+
 def in_class(case, w):
     """Narrow on purpose: one derivation, and no regex of the grammar could have munched further at a leaf's position."""
     ders = case["enum"].words.get(w, [])
@@ -280,6 +294,10 @@ def run(tier, seed):
             g = gen.rand_bits_grammar(rnd, 8)
         else:
             g = gen.rand_grammar(rnd, flavour="bytes" if r < 0.35 else "text", classes=gen.SMALL_CLASSES)
+            while counted_open(g):
+                # X{n,} with n >= 2 is parsed with the process-wide cap (20) as its upper bound, while the search may
+                # raise the cap and generate more iterations: recorded finding F43, pinned below
+                g = gen.rand_grammar(rnd, flavour="bytes" if r < 0.35 else "text", classes=gen.SMALL_CLASSES)
         cons = gen.rand_constraints(rnd, g)
         spec = gen.render(g, cons)
         jobs.append((spec, seed + k, {"n": 8, "gens": 6, "pop": 10}))
@@ -332,6 +350,8 @@ def run(tier, seed):
             generated_outputs=n_rt, generated_in_class=n_rt_class, skipped_timeouts=skipped,
             rule="(ii) every word <= %d units of %d generated grammars that has one derivation and maximal-munch regex leaves; "
                  "(i) every solution of %d seeded search runs, parsed back through Fandango.parse" % (mu, ng, nrt))
+    if f43_witness():
+        rep.violation("witness:F43:counted-open-repetition", "<start> ::= \"-\"{2,} accepts 20 dashes and rejects 21", {"spec": '<start> ::= "-"{2,}'})
     rep.sample({"spec": cases[0]["spec"], "in_class_words": [repr(w) for w in cases[0]["inside"] if in_class(cases[0], w)][:6]})
     rep.assumptions += ["the class is enforced per word from the TLC enumeration; a narrower class can only lose detections",
                         "CPython's re decides maximal munch of the class regexes"]
